@@ -416,6 +416,13 @@ class SchemaBuilder:
             fail(f"recursive style class {cls.__name__}")
         self.stack.append(cls)
         self.nclasses += 1
+        for c in cls.__mro__:
+            if c is self.magic_base or c is object:
+                continue
+            for meth in ("as_dict", "update", "copy", "__setattr__", "_freeze", "_property_names_generator",
+                         "__getattr__", "__getattribute__", "__deepcopy__", "__copy__"):
+                if meth in c.__dict__:
+                    fail(f"{c.__name__} overrides MagicProperties.{meth}: not modelled")
         names = [a for a in dir(cls) if isinstance(getattr(cls, a, None), property)]
         if any("_" in n for n in names):
             fail(f"{cls.__name__}: property name contains the magic separator")
